@@ -112,7 +112,9 @@ func (m *metaHTTP) CreateMultipartUpload(ctx context.Context, b storage.BucketNa
 	if contentType != nil || checksumType != nil || opts != nil {
 		return m.Storage.CreateMultipartUpload(ctx, b, k, contentType, checksumType, opts)
 	}
-	r := m.do(ctx, http.MethodPost, b.String(), k.String(), url.Values{"uploads": {""}}, nil, nil)
+	h := map[string]string{}
+	m.decorate(h, nil, true, true)
+	r := m.do(ctx, http.MethodPost, b.String(), k.String(), url.Values{"uploads": {""}}, h, nil)
 	if r.code != 200 {
 		return nil, m.toError(ctx, r, b.String())
 	}
@@ -229,6 +231,7 @@ func (m *metaHTTP) AppendObject(ctx context.Context, b storage.BucketName, k sto
 	if opts != nil && opts.WriteOffset != nil {
 		h["x-amz-write-offset-bytes"] = strconv.FormatInt(*opts.WriteOffset, 10)
 	}
+	m.decorate(h, body, false, false)
 	r := m.do(ctx, http.MethodPut, b.String(), k.String(), url.Values{"append": {""}}, h, body)
 	if r.code != 200 {
 		return nil, m.toError(ctx, r, b.String())
